@@ -17,7 +17,12 @@ RULE = ('W: random DAGs of real bfg9000 file objects (executables, shared/versio
         'installed by random sequences of InstallOutputs.add(item, directory=None|str|Path) under random install-dir '
         'overrides; a case is one call sequence, non-trivial when the closure adds at least one implicit file or a '
         'directory/conflict/error is involved. System: generated projects configured, built and installed for real '
-        '(quick: 2, thorough: 15), each with prefix/dir overrides and DESTDIR containing blanks.')
+        '(quick: 2, thorough: 15), each with prefix/dir overrides and DESTDIR containing blanks; every project contains '
+        'shared libraries in every combination of {versioned, unversioned} x {installed implicitly as run-time dependency '
+        'of the installed program, implicitly as run-time dependency of an implicitly installed library, explicitly}, '
+        'whether the main library is versioned / named by a .pc file is dealt out in turn; every DT_NEEDED name of every '
+        'installed ELF file that the project builds must be in the installed tree, and the installed program is run '
+        'under every DESTDIR mode while the build directory is moved away.')
 TRUSTED = ('specification of doppel/rm/patchelf as file-system operations (Install.v cmd_ops), validated on this run against '
            'the real doppel, rm and patchelf by executing the generated install rules',
            'GNU Make command-line variable override semantics (exercised: make install DESTDIR=...)',
@@ -482,13 +487,23 @@ def dump_main(builddir):
     sys.stdout.write('C15DUMP' + json.dumps(out) + '\n')
 
 
-def gen_project(rng, root, rep=None):
+# how a shared library of a generated project gets installed
+WAYS = ('exe', 'lib', 'explicit')
+# (versioned, .pc file naming foo) of the main library, dealt out in turn over the projects of a run
+FOO_SCHEDULE = [(True, False), (False, True), (True, True), (False, False)]
+
+
+def gen_project(rng, root, rep=None, idx=0, offset=0):
     """A generated project: files of the source tree, configure arguments and the expected installed set
-    (independent of the model: relative to the directory kinds)."""
-    ver = rng.random() < 0.6
+    (independent of the model: relative to the directory kinds).
+
+    Shared libraries come in every combination of {versioned (link -> soname -> real file), unversioned} x
+    {installed only implicitly as run-time dependency of the installed program, only implicitly as run-time dependency
+    of an implicitly installed library, passed to install() explicitly} in EVERY project; whether the main library is
+    versioned / named by a .pc file is dealt out in turn (idx)."""
+    ver, pc = FOO_SCHEDULE[(idx + offset) % len(FOO_SCHEDULE)]
     lib2 = rng.random() < 0.6
     static_inst = rng.random() < 0.5
-    pc = rng.random() < 0.6
     recursive = rng.random() < 0.7
     tooldir = rng.choice([None, 'tools', 'my tools/x'])
     sub = rng.choice(['sub', 'sub dir', 'a/b c'])
@@ -496,16 +511,30 @@ def gen_project(rng, root, rep=None):
     hdrdir_arg = rng.choice([None, None, 'demo-1.0', 'my hdrs'])
     man = rng.random() < 0.8
     man_gz = rng.random() < 0.7          # a compressed page: the installed file is a build-directory output with a directory part
+    extras = [{'name': ('v' if v else 'u') + {'exe': 'p', 'lib': 'l', 'explicit': 'e'}[w], 'ver': v, 'way': w, 'value': 3 + 2 * k}
+              for k, (v, w) in enumerate((v, w) for w in WAYS for v in (True, False))]
+    rng.shuffle(extras)
     for k, v in (('ver', ver), ('lib2', lib2), ('static', static_inst), ('pc', pc), ('recursive', recursive), ('man', man),
                  ('tooldir', tooldir is not None), ('hdrdir_arg', hdrdir_arg is not None)):
         if rep:
             rep.count('proj:%s=%s' % (k, v))
+    for x in extras:
+        # without a second library level the run-time dependencies of a library are those of the program
+        x['via'] = 'baz' if (x['way'] == 'lib' and lib2) else 'prog'
+        if rep:
+            rep.count('proj:shlib:%s,installed-%s' % ('versioned' if x['ver'] else 'unversioned',
+                                                      'explicitly' if x['way'] == 'explicit' else 'implicitly-by-' + x['via']))
+    by_prog = [x for x in extras if x['via'] == 'prog']
+    by_baz = [x for x in extras if x['via'] == 'baz']
+    total = 3 + (2 + sum(x['value'] for x in by_baz) if lib2 else 0) + sum(x['value'] for x in by_prog)
     files = {
         'foo.c': '#include <foo.h>\nint foo(void){return 1;}\n',
-        'baz.c': 'int foo(void);\nint baz(void){return foo() + 1;}\n',
+        'baz.c': 'int foo(void);\n%sint baz(void){return foo() + 1%s;}\n' % (
+            ''.join('int %s(void);\n' % x['name'] for x in by_baz), ''.join(' + %s()' % x['name'] for x in by_baz)),
         'bar.c': 'int bar(void){return 2;}\n',
-        'main.c': '#include <foo.h>\nint bar(void);\n%sint main(void){return foo() + bar() %s;}\n' % (
-            'int baz(void);\n' if lib2 else '', '+ baz() - 5' if lib2 else '- 3'),
+        'main.c': '#include <foo.h>\nint bar(void);\n%s%sint main(void){return foo() + bar()%s%s - %d;}\n' % (
+            'int baz(void);\n' if lib2 else '', ''.join('int %s(void);\n' % x['name'] for x in by_prog),
+            ' + baz()' if lib2 else '', ''.join(' + %s()' % x['name'] for x in by_prog), total),
         'tool.c': 'int main(void){return 0;}\n',
         'include/foo.h': 'int foo(void);\n',
         'include/%s/x.h' % sub: '/* x */\n',
@@ -517,14 +546,19 @@ def gen_project(rng, root, rep=None):
         'man/api/deep/demo_foo.3': '.TH demo_foo 3\n',
         'data/my data.txt': 'data\n',
     }
+    VER = ", version='1.2.3', soversion='1'"
     L = ["project('demo', version='1.0')",
          "hd = header_directory('include', include=%r)" % ('**/*.h' if recursive else '*.h'),
-         "foo = shared_library('foo', files=['foo.c'], includes=[hd]%s)" % (", version='1.2.3', soversion='1'" if ver else ''),
+         "foo = shared_library('foo', files=['foo.c'], includes=[hd]%s)" % (VER if ver else ''),
          "bar = static_library('bar', files=['bar.c'])"]
+    for x in extras:
+        files[x['name'] + '.c'] = 'int %s(void){return %d;}\n' % (x['name'], x['value'])
+        L.append("%s = shared_library(%r, files=[%r]%s)" % (x['name'], x['name'], x['name'] + '.c', VER if x['ver'] else ''))
     libs = ['foo', 'bar']
     if lib2:
-        L.append("baz = shared_library('deep/baz', files=['baz.c'], libs=[foo])")
+        L.append("baz = shared_library('deep/baz', files=['baz.c'], libs=[%s])" % ', '.join(['foo'] + [x['name'] for x in by_baz]))
         libs.insert(0, 'baz')
+    libs += [x['name'] for x in by_prog]
     L += ["prog = executable('prog', files=['main.c'], libs=[%s], includes=[hd])" % ', '.join(libs),
           "tool = executable('tool', files=['tool.c'])",
           "install(prog)",
@@ -532,15 +566,21 @@ def gen_project(rng, root, rep=None):
           "install(tool%s)" % (', directory=%r' % tooldir if tooldir else ''),
           "install(generic_file('data/my data.txt'), directory=Path(%r, InstallRoot.datadir))" % datadir_arg,
           "install(header_file('top.h'))"]
+    inst = [["install(%s)" % x['name']] for x in extras if x['way'] == 'explicit']
     if man:
-        L.append("install(man_page('man/prog.1', compress=False))")
+        inst.append(["install(man_page('man/prog.1', compress=False))"])
     if man_gz:
-        L.append("install(man_page('man/fmt/demofmt.5', compress=True))")
-        L.append("install(man_page('man/api/deep/demo_foo.3', compress=False))")
+        inst.append(["install(man_page('man/fmt/demofmt.5', compress=True))",
+                     "install(man_page('man/api/deep/demo_foo.3', compress=False))"])
     if static_inst:
-        L.append("install(bar)")
+        inst.append(["install(bar)"])
     if pc:
-        L.append("pkg_config('demo', version='1.0', libs=[foo])")
+        inst.append(["pkg_config('demo', version='1.0', libs=[foo])"])
+    rng.shuffle(inst)               # explicit installs before and after the implicit ones
+    k = rng.randint(0, len(inst))
+    at = L.index("install(prog)")
+    L[at:at] = [ln for grp in inst[:k] for ln in grp]
+    L += [ln for grp in inst[k:] for ln in grp]
     files['build.bfg'] = '\n'.join(L) + '\n'
     # configuration: every directory lives below <root>/sys so that nothing can escape the scratch area
     sysroot = os.path.join(root, rng.choice(['sys', 'sys root']))
@@ -555,18 +595,22 @@ def gen_project(rng, root, rep=None):
     if rep:
         rep.count('proj:overrides=%d' % len(over))
     # expected installed set, by kind
+
+    def shlib_files(name, versioned, named_itself):
+        """a versioned library is three files: the development link (installed when the library itself is named by
+        install()/pkg_config()), the soname link that binaries record as DT_NEEDED, and the real file"""
+        if not versioned:
+            return ['lib%s.so' % name]
+        return ['lib%s.so.1' % name, 'lib%s.so.1.2.3' % name] + (['lib%s.so' % name] if named_itself else [])
     exp = [('bindir', 'prog'), ('bindir', (tooldir + '/' if tooldir else '') + 'tool'),
            ('datadir', datadir_arg + '/my data.txt'), ('includedir', 'top.h')]
     hp = (hdrdir_arg + '/') if hdrdir_arg else ''
     exp.append(('includedir', hp + 'foo.h'))
     if recursive:
         exp.append(('includedir', hp + sub + '/x.h'))
-    if ver:
-        exp += [('libdir', 'libfoo.so.1'), ('libdir', 'libfoo.so.1.2.3')]
-        if pc:
-            exp.append(('libdir', 'libfoo.so'))
-    else:
-        exp.append(('libdir', 'libfoo.so'))
+    exp += [('libdir', f) for f in shlib_files('foo', ver, pc)]
+    for x in extras:
+        exp += [('libdir', f) for f in shlib_files(x['name'], x['ver'], x['way'] == 'explicit')]
     if lib2:
         exp.append(('libdir', 'deep/libbaz.so'))
     if man:
@@ -603,11 +647,23 @@ def classify_system(proj, what):
     return ()
 
 
-def system_project(rep, rng, idx):
+def elf_needed(path, env):
+    """DT_NEEDED entries of an ELF file (None for anything else)"""
+    try:
+        with open(path, 'rb') as f:
+            if f.read(4) != b'\x7fELF':
+                return None
+    except OSError:
+        return None
+    p = subprocess.run(['patchelf', '--print-needed', path], capture_output=True, text=True, env=env)
+    return [x for x in p.stdout.split('\n') if x] if p.returncode == 0 else None
+
+
+def system_project(rep, rng, idx, offset=0):
     """One generated project through configure, build, install, uninstall; returns number of failures."""
     bad = 0
     with project.Scratch('c15') as s:
-        proj = gen_project(rng, s.root, rep)
+        proj = gen_project(rng, s.root, rep, idx, offset)
         project.write_tree(s.src, proj['files'])
         cfgdest = os.path.join(s.root, 'cfg dest')
         rc, out = project.configure(s.src, s.build, 'make', proj['args'], extra_env={'DESTDIR': cfgdest})
@@ -748,12 +804,35 @@ def system_project(rep, rng, idx):
                             not (ntop + '/').startswith(os.path.join(s.root, x) + '/'))
             if others:
                 fail('make install (%s DESTDIR=%r) created %r outside the destination' % (mode, dest, others))
-            # the installed program runs from its final location only when installed without staging
-            if mode == 'empty':
-                pr = subprocess.run([os.path.normpath(dirval['bindir'] + '/prog')], capture_output=True, env={'PATH': '/usr/bin:/bin'})
-                rep.case('runs:%d' % idx, True)
+            # what the installed binaries need at run time is installed with them: every DT_NEEDED name that the
+            # project itself builds is present in the installed tree (under exactly that name: the loader opens the
+            # soname, not the development link or the real file)
+            built = {os.path.basename(k) for k in snap0[1]}
+            have = {os.path.basename(k) for k in real}
+            for rel in realset:
+                fp = os.path.join(top, rel)
+                needed = None if os.path.islink(fp) else elf_needed(fp, e)
+                for nm in needed or []:
+                    rep.count('needed:' + ('project library' if nm in built else 'system library'))
+                    if nm in built and nm not in have:
+                        fail('installed %s (%s DESTDIR) needs %r at run time (DT_NEEDED), which the project builds but does '
+                             'not install; installed: %r' % (rel, mode, nm, realset))
+            # the installed program runs: from its final location when installed without staging, from the staging
+            # area (library directories given to the loader) otherwise - with the build directory out of the way
+            away = s.build + '.away'
+            os.rename(s.build, away)
+            try:
+                libdirs = [os.path.normpath(dest + dirval['libdir'] + x[len('libdir'):]) for x in proj['rpath_dirs']]
+                renv = {'PATH': '/usr/bin:/bin'}
+                if dest:
+                    renv['LD_LIBRARY_PATH'] = ':'.join(libdirs)
+                pr = subprocess.run([os.path.normpath(dest + dirval['bindir'] + '/prog')], capture_output=True, env=renv, cwd='/')
+                rep.case('runs:%d:%s' % (idx, mode), True)
                 if pr.returncode != 0:
-                    fail('installed prog does not run: rc=%d %s' % (pr.returncode, pr.stderr.decode('utf-8', 'replace')[-300:]))
+                    fail('installed prog (%s DESTDIR) does not run once the build directory is gone: rc=%d %s' % (
+                        mode, pr.returncode, pr.stderr.decode('utf-8', 'replace')[-300:]), installed=realset)
+            finally:
+                os.rename(away, s.build)
             # 3. uninstall: removes exactly what install created
             rc, out = run_make(s.build, ['uninstall'] + margs)
             left = sorted(tree_files(top)) if os.path.exists(top) else []
@@ -822,8 +901,9 @@ def stage_directories(rep, rng):
 
 def stage_system(rep, rng, n):
     bad = 0
+    offset = rng.randrange(len(FOO_SCHEDULE))
     for i in range(n):
-        bad += system_project(rep, rng, i)
+        bad += system_project(rep, rng, i, offset)
     rep.stage('system:configure+make+install+uninstall', projects=n, failures=bad)
     return bad
 
